@@ -2,6 +2,7 @@ import RedisVerif.Driver.Codec
 import RedisVerif.Model.GrammarTable
 import RedisVerif.Model.LuaConv
 import RedisVerif.Model.LuaScript
+import RedisVerif.Model.GrammarGen
 import RedisVerif.Props.C16
 
 /-
@@ -26,6 +27,10 @@ import RedisVerif.Props.C16
                         statement, the reply the CLIENT path gave for the same words (`-` = none): the executor is a
                         parameter of the model, here it replays these replies.
                         completed=<statements completed> reply=<resp> | crash
+    SH {R|L} <i>      → row i of the shape table of `table` (R: both RESP parsers) / `luaTable` (L): name, arity rule,
+                        arity text, constructors, slot kinds, optional slots, tail, option table, unknown-word
+                        policy, literals of the finishing function | end
+    FA <i>            → family i of `table`: name and the text of a missing sub-command | end
   RESP values (prefix notation):  +<hex>  -<hex>  :<int>  $<hex>  $-  *-  *<n> v1 … vn
   Lua values:                     nil true false i<int> n<int> s<hex> ok<hex> err<hex> t<n> v1 … vn
 -/
@@ -133,6 +138,60 @@ partial def showLua : LuaVal → String
   | .arr xs => " ".intercalate (s!"t{xs.length}" :: xs.map showLua)
   | .other => "other"
 end
+
+/-! ### shape rows -/
+
+def showKind : ArgKind → String
+  | .str => "str" | .sds => "sds" | .int => "int" | .u64 => "u64" | .flt => "flt" | .usz => "usz" | .kw => "kw" | .u32 => "u32"
+
+def showArg (a : Arg) : String :=
+  match a.onErr with
+  | none => showKind a.kind
+  | some l => showKind a.kind ++ "!" ++ hexOfBytes l.text
+
+def showArgs (l : List Arg) : String := if l.isEmpty then "-" else ",".intercalate (l.map showArg)
+
+def showArity : Arity → String
+  | .any => "any"
+  | .exact n => s!"eq{n}"
+  | .atLeast n => s!"ge{n}"
+  | .between lo hi => s!"in{lo}-{hi}"
+  | .evenAtLeast n => s!"even-ge{n}"
+  | .oddAtLeast n => s!"odd-ge{n}"
+
+def showMissing : Missing → String
+  | .err l => "m=" ++ hexOfBytes l.text
+  | .crash => "m=crash"
+  | .ignore => "m=ignore"
+
+def showOpt (o : OptSpec) : String :=
+  strOf o.kw ++ ":" ++ showArgs o.vals ++ ":" ++ (if o.vals.isEmpty then "m=-" else showMissing o.missing) ++
+    (match o.reject with
+     | some f => ":r=" ++ hexOfBytes f.pre
+     | none => "")
+
+def showUnk : Unk → String
+  | .lit l => "lit:" ++ hexOfBytes l.text
+  | .fmt f => "fmt:" ++ hexOfBytes f.pre
+
+def sortStrs (l : List String) : List String := (l.toArray.qsort (· < ·)).toList
+
+def showTail : Tail → String
+  | .none => "tail=none opts=- unk=-"
+  | .ignore => "tail=ignore opts=- unk=-"
+  | .many a => s!"tail=many:{showArg a} opts=- unk=-"
+  | .pairs a b => s!"tail=pairs:{showArg a}:{showArg b} opts=- unk=-"
+  | .scan tbl unk => "tail=scan opts=" ++ "|".intercalate (sortStrs (tbl.map showOpt)) ++ " unk=" ++ showUnk unk
+  | .flagsPairs fl odd a b =>
+    "tail=flags:" ++ showArg a ++ ":" ++ showArg b ++ ":" ++ hexOfBytes odd.text ++
+      " opts=" ++ "|".intercalate (sortStrs (fl.map (fun f => strOf f ++ ":-:m=-"))) ++ " unk=break"
+  | .raw => "tail=raw opts=- unk=-"
+
+def showRow (r : ShapeRow) : String :=
+  s!"name={strOf r.name} arity={showArity r.arity} aerr={hexOfBytes r.arityErr} " ++
+  s!"ctor={"|".intercalate (sortStrs (r.gen.ctors.map strOf))} slots={showArgs r.gen.pre} opt={showArgs r.gen.opt} " ++
+  showTail r.gen.tail ++
+  " flits=" ++ (if r.gen.finLits.isEmpty then "-" else ";".intercalate (sortStrs (r.gen.finLits.map (fun l => hexOfBytes l.text))))
 
 /-! ### scripts -/
 
@@ -273,6 +332,24 @@ def step (line : String) : String :=
   | "SC" :: ts => match (scriptOpP (ts.length + 1)).run ts with
     | some (o, []) => runScriptOp o
     | _ => "bad-op"
+  | ["SH", g, i] => match i.toNat? with
+    | some n =>
+      let rows := if g == "R" then shapeRows table else if g == "L" then shapeRows luaTable else []
+      if g != "R" && g != "L" then "bad-op" else
+      match rows[n]? with
+      | some r => showRow r
+      | none => "end"
+    | none => "bad-op"
+  | ["FA", i] => match i.toNat? with
+    | some n => match (familyRows table)[n]? with
+      | some (nm, a) =>
+        -- what an unknown sub-command `ZZZ` (no further argument) answers
+        let probe := match findEntry table nm with
+          | some (.family _ _ _ d) => (showRes (d (s2b "ZZZ") [])).replace " " "_"
+          | _ => "?"
+        s!"name={strOf nm} aerr={hexOfBytes a} probe={probe}"
+      | none => "end"
+    | none => "bad-op"
   | ["TN"] =>
     let names := (table.map Entry.name).map strOf
     ",".intercalate (names.toArray.qsort (· < ·)).toList
